@@ -116,6 +116,8 @@ class Lattice:
     def _coord(self, a0, i):
         if self.case.get("origin_mode", "clean") == "mid":  # as the shipped region loaders do: float midpoint minus dh/2
             return exact.fl(a0 + i * self.dh + self.dh / 2) - self.fdh / 2
+        if self.case.get("origin_mode", "clean") == "f32":  # coordinates that were held in single precision once (binary grid files)
+            return float(numpy.float32(exact.fl(a0 + i * self.dh)))
         return exact.fl(a0 + i * self.dh)
 
     def with_spacing(self, h):
